@@ -44,7 +44,7 @@ func runE2E(h *header, cases []*caseRec, gobin string) {
 		}
 		dir := materialise(c, "e2e")
 		defer os.RemoveAll(dir)
-		srv, err := goproxytest.NewServer(dir, "127.0.0.1:0")
+		srv, err := goproxytest.NewServer(spelled(dir), "127.0.0.1:0")
 		if err != nil {
 			res.Violate(vutil.Finding{Kind: "server-does-not-start", Class: fmt.Sprint(itemNames(h, c)), What: err.Error()})
 			return
